@@ -1,0 +1,70 @@
+//go:build verif
+
+package route
+
+import (
+	"encoding/hex"
+	"net"
+	"net/url"
+	"sort"
+)
+
+// Verification hooks for the access-rule gate (build tag verif): build a target through the real
+// addTarget/ProcessAccessRules, dump its rule map, call the unexported denyByIP. No behaviour is changed.
+
+// VerifC12Block is one parsed block of the rule map: the stored network number and mask, hex-encoded.
+type VerifC12Block struct {
+	IP   string `json:"ip"`
+	Mask string `json:"mask"`
+}
+
+// VerifC12Rules is the canonical dump of Target.accessRules. Allow/Deny are nil when the key is absent.
+type VerifC12Rules struct {
+	Allow []VerifC12Block `json:"allow"`
+	Deny  []VerifC12Block `json:"deny"`
+	Other []string        `json:"other"` // any other key or a non-*net.IPNet element (never expected)
+}
+
+// VerifC12AddTarget adds one target with the given options to a fresh route through the real addTarget and
+// returns it (this is the path the route table takes: ProcessAccessRules errors are only logged there).
+func VerifC12AddTarget(rawurl string, opts map[string]string) *Target {
+	u, err := url.Parse(rawurl)
+	if err != nil || u == nil {
+		u = &url.URL{Scheme: "http", Host: "127.0.0.1:1", Path: "/"}
+	}
+	r := &Route{Host: "", Path: "/"}
+	r.addTarget("svc", u, 0, nil, opts)
+	return r.Targets[0]
+}
+
+// VerifC12Rules dumps the target's rule map.
+func (t *Target) VerifC12Rules() VerifC12Rules {
+	out := VerifC12Rules{Other: []string{}}
+	dump := func(xs []interface{}, key string) []VerifC12Block {
+		bs := []VerifC12Block{}
+		for _, x := range xs {
+			n, ok := x.(*net.IPNet)
+			if !ok || n == nil {
+				out.Other = append(out.Other, key+":non-ipnet")
+				continue
+			}
+			bs = append(bs, VerifC12Block{IP: hex.EncodeToString(n.IP), Mask: hex.EncodeToString(n.Mask)})
+		}
+		return bs
+	}
+	for k, v := range t.accessRules {
+		switch k {
+		case ipAllowTag:
+			out.Allow = dump(v, k)
+		case ipDenyTag:
+			out.Deny = dump(v, k)
+		default:
+			out.Other = append(out.Other, k)
+		}
+	}
+	sort.Strings(out.Other)
+	return out
+}
+
+// VerifC12DenyByIP exposes denyByIP.
+func (t *Target) VerifC12DenyByIP(ip net.IP) bool { return t.denyByIP(ip) }
